@@ -1,5 +1,6 @@
 (* C09 - Thinking time (model-level part on IEEE-754 binary64, Flocq). *)
-From Coq Require Import ZArith.
+From Coq Require Import ZArith Reals.
+From Flocq Require Import Core.Core.
 From Walleye Require Import Model.Prim Gen.Consts Model.TimeControl Proofs.TimeBound.
 Open Scope Z_scope.
 
@@ -45,6 +46,22 @@ Theorem C09_never_exceeds_the_clock : forall gt c,
   (clock <= 100 -> inc <= 0 -> calculate_time_slice gt c = 0).
 Proof. exact slice_within_clock. Qed.
 
+(* the proportional clause: with more than the margin left the plan is at most 80% of (clock - margin) divided by the
+   moves to go (0 or absent: 30), up to the binary64 roundings of the computation (relative 4 * 2^-53 in all) and the
+   rounding to whole milliseconds (1/2) - as a statement about real numbers *)
+Theorem C09_at_most_80_percent_of_the_usable_clock : forall gt c,
+  let clock := match c with White => wtime gt | Black => btime gt end in
+  let inc := match c with White => winc gt | Black => binc gt end in
+  Z.abs clock < 2 ^ 53 -> Z.abs inc < 2 ^ 53 ->
+  (match movestogo gt with Some m => 0 <= m < 2 ^ 32 | None => True end) ->
+  100 < clock ->
+  (IZR (calculate_time_slice gt c) <=
+   8 / 10 * IZR (clock - 100) / IZR (moves_to_go gt) * (1 + 4 * (/ 2 * bpow radix2 (-52))) + / 2)%R.
+Proof.
+  intros gt c clock inc Hc Hi Hm G. rewrite calc_core. apply slice_core_proportional; [exact Hc|exact Hi| |exact G].
+  unfold moves_to_go, GAME_LENGTH. destruct (movestogo gt) as [m|]; [|lia]. destruct (Z.ltb_spec 0 m); lia.
+Qed.
+
 (* movestogo 0 is read as "not told" (the repaired defect F12: it used to divide by zero and plan 2^128 - 1 ms) *)
 Theorem C09_movestogo_zero_is_not_told : forall w b wi bi c,
   calculate_time_slice (mkGT w b wi bi (Some 0)) c = calculate_time_slice (mkGT w b wi bi None) c.
@@ -52,6 +69,7 @@ Proof. intros. reflexivity. Qed.
 
 Print Assumptions C09_own_side_only.
 Print Assumptions C09_never_exceeds_the_clock.
+Print Assumptions C09_at_most_80_percent_of_the_usable_clock.
 Print Assumptions C09_movestogo_zero_is_not_told.
 Print Assumptions C09_constants.
 Print Assumptions C09_instances.
